@@ -144,7 +144,32 @@ fn enum_lengths(seed: u64, run: u64, tier: Tier) -> Plan {
     if tier == Tier::Thorough {
         lens.extend([(1 << 20) - 1, 1 << 20, (1 << 20) + 1]);
     }
+    // text segments whose byte length is a whole number of base64 staging blocks (3 * 2^k bytes = 2^(k+2)
+    // characters, and small multiples of 3072): the message is sized so that nonce + message + tag hits
+    // the block size exactly, one less and one more
+    let overhead = crate::world::nonce_len(bk.family(), purpose) + crate::world::tag_len(bk.family(), purpose);
+    let mut blocks: Vec<usize> = (4..=15).map(|k| 3usize << k).collect();
+    blocks.extend([2 * 3072, 3 * 3072, 5 * 3072, 3 * 1000, 3 * 4096 + 3]);
+    for seg in &blocks {
+        for d in [0isize, -1, 1] {
+            let l = *seg as isize + d - overhead as isize;
+            if l >= 0 {
+                lens.push(l as usize);
+            }
+        }
+    }
     let (key, vkey) = if purpose == Purp::Local { (fk.local, fk.local) } else { (fk.secret, fk.public) };
+    // footers that fill whole staging blocks
+    for seg in &blocks {
+        if *seg > 20_000 {
+            continue;
+        }
+        let tok = b.tok_slot();
+        let rng = b.healthy_rng();
+        let (s1, s2) = (b.ev_seed(), b.ev_seed());
+        b.push(Step::Seal { tok, node: 0, key, purpose, claims: crate::plan::ClaimsSpec::Raw { bytes: crate::plan::Bytes::Gen { len: 7, seed: s1 } }, footer: crate::plan::FootSpec::Bytes { bytes: crate::plan::Bytes::Gen { len: *seg, seed: s2 } }, aad: crate::plan::Bytes::empty(), nonce: None, alias: false, rng, now_ns: now });
+        b.push(Step::Deliver { tok, node: 0, key: vkey, purpose: None, faults: vec![], pk: None, fk: None, validator: VSpec::None, alias: false, now_ns: now, pair_with: None });
+    }
     for len in lens {
         let tok = b.tok_slot();
         let claims = crate::plan::ClaimsSpec::Raw { bytes: crate::plan::Bytes::Gen { len, seed: b.ev_seed() } };
